@@ -3,6 +3,7 @@ package main
 import (
 	"fmt"
 	"go/token"
+	"go/types"
 	"strings"
 
 	"golang.org/x/tools/go/ssa"
@@ -255,22 +256,58 @@ func c09(p *P) {
 			r.Check(a[2] == start && linOf(a[3]).equal(Lin{C: -1, T: map[string]int64{"$2": 1}}), "C09.R6", "certstore.Store.GetPowerTable: deltas of certificates start … instance−1", p.c.InstrPos(gr[0].Instr), canon(a[2])+" … "+canon(a[3]), "range is "+canon(a[2])+" … "+canon(a[3]))
 			r.Check(strings.HasPrefix(ap[0].Arg(0), "phi(") || strings.Contains(ap[0].Arg(0), "readPowerTable("), "C09.R6", "certstore.Store.GetPowerTable: deltas applied to the checkpoint table", p.c.InstrPos(ap[0].Instr), ap[0].Arg(0), "applied to "+ap[0].Arg(0))
 			r.Check(strings.Contains(ap[0].Arg(0), "certstore.Store.readPowerTable($0, $1, "+canon(start)+")#0"), "C09.R6", "certstore.Store.GetPowerTable: base table is the one read at the checkpoint", p.c.InstrPos(ap[0].Instr), "readPowerTable(start)", "base table "+ap[0].Arg(0))
-			// deltas[i] = certificates[i].PowerTableDelta, full range
-			var dst []*ssa.Store
-			for _, b := range g.Blocks {
-				for _, in := range b.Instrs {
-					if st, ok := in.(*ssa.Store); ok && strings.HasSuffix(canon(st.Val), ".PowerTableDelta") && strings.Contains(canon(st.Val), "GetRange(") {
-						dst = append(dst, st)
+			// deltas[i] = certificates[i].PowerTableDelta (or append in range order), full range
+			fromRange := func(v ssa.Value) bool {
+				c := canon(v)
+				if !strings.HasSuffix(c, ".PowerTableDelta") && !strings.HasSuffix(c, ".PowerTableDelta]") {
+					return false
+				}
+				if strings.Contains(c, "GetRange(") {
+					return true
+				}
+				// a range-variable copy of an element of the GetRange result
+				found := false
+				allValues(g, func(x ssa.Value) {
+					if a, ok := x.(*ssa.Alloc); ok && strings.Contains(c, strings.TrimPrefix(canon(a), "&")) {
+						for _, sv := range storesTo(a) {
+							if strings.Contains(canon(sv), "GetRange(") {
+								found = true
+							}
+						}
+					}
+				})
+				return found
+			}
+			var collect []ssa.Instruction
+			ordered := true
+			for _, in := range instrsOf(g) {
+				switch x := in.(type) {
+				case *ssa.Store:
+					if ia, isIA := x.Addr.(*ssa.IndexAddr); isIA {
+						if a, isA := ia.X.(*ssa.Alloc); isA {
+							if _, isArr := a.Type().(*types.Pointer).Elem().Underlying().(*types.Array); isArr {
+								continue // temporary array of a variadic call
+							}
+						}
+					}
+					if fromRange(x.Val) {
+						collect = append(collect, x)
+						ia, _ := x.Addr.(*ssa.IndexAddr)
+						if ia == nil || !strings.Contains(canon(x.Val), "["+canon(ia.Index)+"]") {
+							ordered = false
+						}
+					}
+				case *ssa.Call:
+					if b, isB := x.Call.Value.(*ssa.Builtin); isB && b.Name() == "append" && len(x.Call.Args) == 2 && fromRange(x.Call.Args[1]) {
+						collect = append(collect, x)
 					}
 				}
 			}
-			if len(dst) == 1 {
-				p.fullRangeLoop("C09.R6", "certstore.Store.GetPowerTable: every certificate's delta is collected", dst[0], nil)
-				ia, _ := dst[0].Addr.(*ssa.IndexAddr)
-				sameIdx := ia != nil && strings.Contains(canon(dst[0].Val), "["+canon(ia.Index)+"]")
-				r.Check(sameIdx, "C09.R6", "certstore.Store.GetPowerTable: deltas kept in certificate order", p.c.InstrPos(dst[0]), "deltas[i] = certificates[i].PowerTableDelta", "delta order differs from certificate order")
+			if len(collect) == 1 {
+				p.fullRangeLoop("C09.R6", "certstore.Store.GetPowerTable: every certificate's delta is collected", collect[0], nil)
+				r.Check(ordered, "C09.R6", "certstore.Store.GetPowerTable: deltas kept in certificate order", p.c.InstrPos(collect[0]), "deltas[i] = certificates[i].PowerTableDelta / append in range order", "delta order differs from certificate order")
 			} else {
-				r.Fail("C09.R6", "certstore.Store.GetPowerTable: every certificate's delta is collected", p.c.Pos(g.Pos()), "delta collection loop not found")
+				r.Fail("C09.R6", "certstore.Store.GetPowerTable: every certificate's delta is collected", p.c.Pos(g.Pos()), fmt.Sprintf("delta collection loop not found (%d candidates)", len(collect)))
 			}
 			reads := append(callSinks(g, "read", "certstore.Store.readPowerTable"), okReturns(g)...)
 			p.guarded("C09.R6", g, reads, cmpRel("instance ≥ first", `^\$2$`, `^\$0\.firstInstance$`, RelLT), cmpRel("instance ≤ next", `^\$2$`, `^phi\(.*latestCertificate\.GPBFTInstance \+ 1\)`, RelGT))
